@@ -364,7 +364,7 @@ package ircserver
 //@   ensures revisionkept: i.Config.Revision == old(i.Config.Revision)
 //@   ensures seenkept: i.lastProcessed == old(i.lastProcessed) && (forall x robust.Id :: x in i.sessions && !old(x in i.sessions) ==> x.Id == s.Id.Id)
 //@   ensures msgidkept: reply.msgid == old(reply.msgid)
-//@   modifies *, !robust.Message, !outputstream.OutputStream, !outputstream.messageBatch, !maptype(map[uint64]*outputstream.messageBatch)
+//@   modifies *, !robust.Message, !outputstream.OutputStream, !outputstream.messageBatch, !maptype(map[uint64]*outputstream.messageBatch), !main.FSM, !maptype(map[uint64][]byte)
 //@   loopinv seenkept: i.lastProcessed == old(i.lastProcessed) && (forall x robust.Id :: x in i.sessions && !old(x in i.sessions) ==> x.Id == s.Id.Id)
 //@   loopinv msgidkept: reply.msgid == old(reply.msgid)
 //@   loopinv revisionkept: i.Config.Revision == old(i.Config.Revision)
@@ -410,7 +410,7 @@ package ircserver
 //@   ensures prefix: wfPrefix(i)
 //@   ensures seenkept: i.lastProcessed == old(i.lastProcessed) && (forall x robust.Id :: x in i.sessions && !old(x in i.sessions) ==> x.Id == old(msg.Session.Id))
 //@   ensures onlyself: forall x robust.Id :: x in i.sessions && i.sessions[x] != i.sessions[old(msg.Session)] && i.sessions[x].deleted ==> i.sessions[old(msg.Session)].Server || i.sessions[old(msg.Session)].Operator
-//@   modifies *, !robust.Message, !outputstream.OutputStream, !outputstream.messageBatch, !maptype(map[uint64]*outputstream.messageBatch)
+//@   modifies *, !robust.Message, !outputstream.OutputStream, !outputstream.messageBatch, !maptype(map[uint64]*outputstream.messageBatch), !main.FSM, !maptype(map[uint64][]byte)
 
 // ---------------------------------------------------------------------------
 // Handlers that need loop invariants (everything else comes from the template)
@@ -481,7 +481,7 @@ package ircserver
 //@   ensures member: wfMember(i)
 //@   ensures reply: replyOK(reply)
 //@   ensures keeps: forall x robust.Id :: old(x in i.sessions) ==> x in i.sessions && i.sessions[x] == old(i.sessions[x])
-//@   modifies *, !robust.Message, !outputstream.OutputStream, !outputstream.messageBatch, !maptype(map[uint64]*outputstream.messageBatch)
+//@   modifies *, !robust.Message, !outputstream.OutputStream, !outputstream.messageBatch, !maptype(map[uint64]*outputstream.messageBatch), !main.FSM, !maptype(map[uint64][]byte)
 
 //@ func IRCServer.generateCaptchaURL
 //@   requires i != nil && i.ConfigMu != nil && s != nil && len(s.auth) >= 8
@@ -1432,3 +1432,18 @@ package ircserver
 //@   opt params = p *pb.Snapshot_Channel, c *channel
 //@   requires chanNicksW(p, c) && (forall n lcNick :: n in c.nicks ==> NickToLower(n) == n)
 //@   ensures chanNicksRepr(p, c)
+
+// ---------------------------------------------------------------------------
+// C02: which log entries a server state has absorbed (ghost set of raft
+// indexes, robust.idxOf). A new server has absorbed none; a serialized state
+// stands for the entries the server had absorbed (snapApplied), and loading
+// it gives exactly those.
+//@ ghostfield IRCServer.applied set
+//@ ghost snapApplied(data []byte) set
+//@ func NewIRCServer
+//@   ensures ghost-applied: forall k uint64 :: !result.applied[k]
+//@ func IRCServer.Marshal
+//@   ensures ghost-applied: result1 == nil ==> snapApplied(result0) == i.applied
+//@ func IRCServer.Unmarshal
+//@   ensures ghost-applied: result1 == nil ==> i.applied == snapApplied(data)
+//@   modifies *, !main.FSM, !maptype(map[uint64][]byte), !raftstore.LevelDBStore, !outputstream.OutputStream, IRCServer.applied[i]
